@@ -40,6 +40,20 @@ def cases(tier):
         spec = {'family': 'ugrid', 'mesh': mesh}
         if spec not in out:
             out.append(spec)
+    from .c02 import extra_cases
+    out += [c for c in extra_cases(tier)]
+    # large grids: the spatial index only returns its hits out of order on grids well above its node
+    # capacity (observed: never on 3x4, on about 40 % of the shared vertices of a 10x20 grid)
+    out.append({'family': 'cf1d', 'ny': 10, 'nx': 20, 'bounds': 'var', 'nt': 1, 'nk': 1})
+    out.append({'family': 'cf2d', 'ny': 8, 'nx': 9, 'geometry': 'skew', 'holes': 'lshape', 'nt': 1, 'nk': 1})
+    out.append({'family': 'shoc_standard', 'nj': 6, 'ni': 7, 'dry': 'corner', 'nt': 1, 'nk': 1})
+    nodes, faces = builders._lattice_mesh(6, 7)
+    out.append({'family': 'ugrid', 'mesh': 'lattice-6x7', 'nodes': nodes, 'faces': faces, 'nt': 1, 'nk': 1})
+    if tier == 'thorough':
+        out.append({'family': 'cf1d', 'ny': 20, 'nx': 10, 'lat_kind': 'desc', 'nt': 1, 'nk': 1})
+        out.append({'family': 'shoc_simple', 'ny': 9, 'nx': 12, 'holes': 'interior', 'nt': 1, 'nk': 1})
+        nodes, faces = builders._lattice_mesh(9, 9)
+        out.append({'family': 'ugrid', 'mesh': 'lattice-9x9', 'nodes': nodes, 'faces': faces, 'nt': 1, 'nk': 1, 'start_index': 1})
     return out
 
 
@@ -80,7 +94,16 @@ def query_points(truth, polys) -> list[tuple[float, float]]:
 
 def run_case(case):
     rec = Recorder()
-    ds, truth = builders.build(case)
+    ds, truth = builders.build({k: v for k, v in case.items() if k != 'io'})
+    if case.get('io') == 'reopen':
+        import shutil
+        import tempfile
+        from .. import env
+        tmp = tempfile.mkdtemp(prefix='emsverif-', dir=env.scratch_root())
+        try:
+            ds = builders.reopen(ds, tmp).load()
+        finally:
+            shutil.rmtree(tmp, ignore_errors=True)
     convention = ds.ems
     fp = f"C04/{truth.family}"
     polys = ref.ref_polygons(truth)
@@ -93,10 +116,32 @@ def run_case(case):
     labels = ref.expected_values(botz, nface, truth.shift)
     hole_points = {tuple(p) for p in truth.get('hole_points', [])}
 
-    outcomes = {'none': 0, 'single': 0, 'multi': 0}
+    outcomes = {'none': 0, 'single': 0, 'multi': 0, 'unsorted-raw-hits': 0}
+    import warnings
+    with warnings.catch_warnings():
+        warnings.simplefilter('ignore')
+        try:
+            old_index = lib(lambda: convention.spatial_index)
+        except LibraryRaised as err:
+            old_index = None
+            rec.check(False, f"{fp}/spatial-index-raised", "convention.spatial_index raised", 'index', str(err))
+    tree = convention.strtree
     for (x, y) in query_points(truth, polys):
         pt = Point(x, y)
         hits = ref.brute_hits(polys, pt)
+        raw = [int(h) for h in tree.query(pt, predicate='intersects')]
+        if raw != sorted(raw):
+            outcomes['unsorted-raw-hits'] += 1
+            rec.nontrivial(('unsorted', x, y))
+        if old_index is not None:
+            # the deprecated index wrapper names cells by the same linear / native indexes
+            items = [item for poly, item in old_index.query(pt) if poly.intersects(pt)]
+            ok = sorted(int(i.linear_index) for i in items) == hits and all(
+                i.polygon.equals(polys[int(i.linear_index)]) and tuple(i.index) == tuple(
+                    builders.native_index(truth, 'face', ref.row_major_unravel(int(i.linear_index), face_shape)))
+                for i in items if 0 <= int(i.linear_index) < nface and polys[int(i.linear_index)] is not None)
+            rec.check(ok, f"{fp}/spatial-index-items", f"spatial_index items for point ({x}, {y})", hits,
+                      [(int(i.linear_index), i.index) for i in items])
         if len(hits) >= 2:
             rec.nontrivial(('multi', x, y))
         elif not hits and ((x, y) in hole_points or abs(x) < 1e5):
